@@ -432,6 +432,38 @@ func main() {
 		p("def checkoutFileCalls : List String := %s\n", leanStrList(calls(fd)))
 		// the checksum comparison guarding success of the copy
 		p("def copyVerifies : Bool := %s\n", leanBool(matchRole(canon(fd, fd.Body), "§ != §.Checksum") || matchRole(canon(fd, fd.Body), "§.Checksum != §")))
+		// what is compared with the recorded checksum: the hash of the very bytes that go to the workspace file in the same pass
+		// (a tee of the source into the destination, or a copy into a writer that feeds both) — by derivation, through helpers
+		hashed := []string{}
+		otherWriters := 0
+		for _, h := range findDeep(pkgFuncs(root, "src/cache"), fd, nil, 3, map[*ast.FuncDecl]bool{}, func(n ast.Node) bool {
+			if be, ok := n.(*ast.BinaryExpr); ok && be.Op == token.NEQ {
+				return strings.HasSuffix(src(be.X), ".Checksum") || strings.HasSuffix(src(be.Y), ".Checksum")
+			}
+			if ce, ok := n.(*ast.CallExpr); ok {
+				return src(ce.Fun) == "io.Copy" || src(ce.Fun) == "io.CopyBuffer" || src(ce.Fun) == "io.CopyN"
+			}
+			return false
+		}) {
+			if be, ok := h.node.(*ast.BinaryExpr); ok {
+				side := be.X
+				if strings.HasSuffix(src(be.X), ".Checksum") {
+					side = be.Y
+				}
+				hashed = append(hashed, sourcesAmong(h.d, side, []string{"call:checksum.Checksum", "call:io.TeeReader", "call:io.MultiWriter", "call:os.OpenFile", "call:os.Open"}))
+			} else if h.call != nil && len(h.call.Args) >= 2 {
+				// a separate copy into the destination: fine only if the same writer feeds the hasher (MultiWriter)
+				w := sourcesAmong(h.d, h.call.Args[0], []string{"call:io.MultiWriter", "call:os.OpenFile", "call:os.Create"})
+				if w != "call:io.MultiWriter,call:os.OpenFile" && w != "" {
+					otherWriters++
+				}
+			}
+		}
+		hl := make([]string, len(hashed))
+		for i, h := range hashed {
+			hl[i] = leanStrList(strings.Split(h, ","))
+		}
+		p("def copyHashedSources : List (List String) := [%s]\ndef copyUnhashedWriters : Nat := %d\n", strings.Join(hl, ", "), otherWriters)
 		// Remove only under ContentsMatch
 		removeGuarded := false
 		ast.Inspect(fd, func(m ast.Node) bool {
